@@ -439,6 +439,7 @@ func TestVerifC10Decode(t *testing.T) {
 		defer close(rtDone)
 		if !replaying {
 			c10Roundtrip(r)
+	c10Pipelined(r)
 		}
 	}()
 	c10Crash(t, r, replaying, replayIn)
@@ -828,4 +829,84 @@ func c10Roundtrip(r *verifkit.Run) {
 	r.Floor("flexible_cases", 500)
 	r.Floor("nil_client_id", 50)
 	r.Floor("multibyte_client_id", 50)
+}
+
+
+// ---------------------------------------------------------------------------
+// pipelined round trip: several requests back to back in ONE byte stream (a client that does not wait for
+// replies; consecutive small requests share a TCP segment). Every frame must come out exactly as sent, in order,
+// whatever the reader's chunking — a frame reader that reads ahead must not lose the bytes of the next frame.
+// ---------------------------------------------------------------------------
+
+// c10GreedyReader returns as many bytes as the caller asks for (up to what is left): the read-ahead-friendly case.
+type c10GreedyReader struct{ b []byte }
+
+func (g *c10GreedyReader) Read(p []byte) (int, error) {
+	if len(g.b) == 0 {
+		return 0, io.EOF
+	}
+	n := copy(p, g.b)
+	g.b = g.b[n:]
+	return n, nil
+}
+
+func c10Pipelined(r *verifkit.Run) {
+	n := r.N(1500, 40000)
+	for ci := 0; ci < n; ci++ {
+		rng := r.Rand(1000000 + ci)
+		k := 2 + rng.Intn(5)
+		var stream []byte
+		var wires [][]byte
+		var desc []string
+		for i := 0; i < k; i++ {
+			key := verifkreq.HandledKeys[rng.Intn(len(verifkreq.HandledKeys))]
+			req := kmsg.RequestForKey(key)
+			ver := int16(rng.Intn(int(req.MaxVersion()) + 1))
+			if key == 7 && ver == 0 {
+				ver = 1
+			}
+			req.SetVersion(ver)
+			verifkreq.Fill(rng, req, verifkreq.Opts{MaxArray: 2, Tags: true})
+			w := verifkreq.Encode(req, int32(rng.Uint32()), verifkreq.ClientID(rng))
+			wires = append(wires, w)
+			stream = append(stream, w...)
+			desc = append(desc, fmt.Sprintf("%s v%d (%d bytes)", kmsg.NameForKey(key), ver, len(w)))
+		}
+		var rd io.Reader
+		mode := []string{"greedy", "chunked", "greedy", "bytes.Reader"}[rng.Intn(4)]
+		switch mode {
+		case "greedy":
+			rd = &c10GreedyReader{b: append([]byte(nil), stream...)}
+		case "chunked":
+			rd = &c10ChunkReader{b: append([]byte(nil), stream...), rng: rng}
+		default:
+			rd = bytes.NewReader(stream)
+		}
+		replay := map[string]any{"case": ci, "reader": mode, "requests": desc, "stream_hex": fmt.Sprintf("%x", c10Clip(stream, 800))}
+		func() {
+			defer func() {
+				if p := recover(); p != nil {
+					r.Violation("panic_on_pipelined_requests", fmt.Sprintf("panic: %v", p), replay)
+				}
+			}()
+			for i, w := range wires {
+				fr, err := ReadFrame(rd)
+				if err != nil {
+					r.Violation("pipelined_frame_lost", fmt.Sprintf("request %d of %d (%s) in one stream: ReadFrame: %v", i, k, desc[i], err), replay)
+					return
+				}
+				if !bytes.Equal(fr.Payload, w[4:]) {
+					r.Violation("pipelined_frame_differs", fmt.Sprintf("request %d of %d (%s) in one stream: payload differs from the bytes sent", i, k, desc[i]), replay)
+					return
+				}
+				if _, _, err := ParseRequest(fr.Payload); err != nil {
+					r.Violation("pipelined_request_rejected", fmt.Sprintf("request %d of %d (%s): %v", i, k, desc[i], err), replay)
+					return
+				}
+				r.Count("pipelined_frames_read", 1)
+			}
+		}()
+		r.Case(fmt.Sprint("pipelined", ci, mode, desc), true)
+	}
+	r.Floor("pipelined_frames_read", 1000)
 }
